@@ -488,28 +488,11 @@ func (w *World) fmLookups(m *finiteMap) []fmLookup {
 							rec := l.Val
 							l.Val = nil
 							n := 0
-							if rec != nil {
-								if refs := rec.Referrers(); refs != nil {
-									for _, r := range *refs {
-										if fl, isField := r.(*ssa.Field); isField && fl.Field == m.Field {
-											lf := l
-											lf.Val = fl
-											out = append(out, lf)
-											n++
-										}
-										// the record kept in a local variable that is only read field by field
-										if st, isStore := r.(*ssa.Store); isStore && st.Val == rec {
-											if a, isAlloc := st.Addr.(*ssa.Alloc); isAlloc {
-												for _, ld := range recordFieldLoads(a, st, m.Field) {
-													lf := l
-													lf.Val = ld
-													out = append(out, lf)
-													n++
-												}
-											}
-										}
-									}
-								}
+							for _, rd := range w.projReads(rec, m.Field, 0, map[ssa.Value]bool{}) {
+								lf := l
+								lf.Val = rd
+								out = append(out, lf)
+								n++
 							}
 							if n > 0 {
 								continue
@@ -620,6 +603,11 @@ func recordFieldLoads(a *ssa.Alloc, st *ssa.Store, field int) []ssa.Value {
 				return nil
 			}
 		case *ssa.DebugRef:
+		case *ssa.UnOp:
+			if x.Op != token.MUL {
+				return nil
+			}
+			// a whole copy of the record (handed to a function): followed by the caller
 		case *ssa.FieldAddr:
 			fr := x.Referrers()
 			if fr == nil {
@@ -639,6 +627,69 @@ func recordFieldLoads(a *ssa.Alloc, st *ssa.Store, field int) []ssa.Value {
 			}
 		default:
 			return nil
+		}
+	}
+	return out
+}
+
+// projReads: the reads of field number field of the record value rec - directly, through a local variable that holds
+// it, at the call sites of the function that returns it, and inside the repository functions it is handed to.
+func (w *World) projReads(rec ssa.Value, field int, depth int, seen map[ssa.Value]bool) []ssa.Value {
+	if rec == nil || depth > 4 || seen[rec] {
+		return nil
+	}
+	seen[rec] = true
+	refs := rec.Referrers()
+	if refs == nil {
+		return nil
+	}
+	var out []ssa.Value
+	for _, r := range *refs {
+		switch x := r.(type) {
+		case *ssa.Field:
+			if x.Field == field {
+				out = append(out, x)
+			}
+		case *ssa.Store:
+			// the record kept in a local variable that is only read field by field (or handed on whole)
+			if a, isAlloc := x.Addr.(*ssa.Alloc); isAlloc && x.Val == rec {
+				out = append(out, recordFieldLoads(a, x, field)...)
+				if arefs := a.Referrers(); arefs != nil {
+					for _, ar := range *arefs {
+						if ld, isLd := ar.(*ssa.UnOp); isLd && ld.Op == token.MUL {
+							out = append(out, w.projReads(ld, field, depth+1, seen)...)
+						}
+					}
+				}
+			}
+		case *ssa.Return:
+			fn := x.Parent()
+			for i, res := range x.Results {
+				if res != rec {
+					continue
+				}
+				for _, site := range w.callSites(fn) {
+					cv, isCall := site.(*ssa.Call)
+					if !isCall {
+						continue
+					}
+					var got ssa.Value = cv
+					if fn.Signature.Results().Len() > 1 {
+						got = extractOf(cv, i)
+					}
+					out = append(out, w.projReads(got, field, depth+1, seen)...)
+				}
+			}
+		case ssa.CallInstruction:
+			callee := x.Common().StaticCallee()
+			if callee == nil || !w.InRepo(callee) || callee.Blocks == nil {
+				continue
+			}
+			for i, a := range x.Common().Args {
+				if a == rec && i < len(callee.Params) {
+					out = append(out, w.projReads(callee.Params[i], field, depth+1, seen)...)
+				}
+			}
 		}
 	}
 	return out
